@@ -1,6 +1,7 @@
 package main
 
 import (
+	"go/ast"
 	"go/token"
 	"go/types"
 	"sort"
@@ -14,6 +15,7 @@ type loopModSet struct {
 	cells map[*ssa.Alloc]bool
 	heaps map[string]Sort
 	all   bool
+	atomics bool // atomic ghost heaps are touched
 }
 
 func newModSet() *loopModSet {
@@ -252,6 +254,22 @@ func (c *FnCtx) contractMods(ct *FuncContract, ms *loopModSet) {
 			ms.all = true
 			continue
 		}
+		if call, ok := m.Expr.(*ast.CallExpr); ok {
+			if id, ok := call.Fun.(*ast.Ident); ok && id.Name == "atomic" {
+				ms.atomics = true
+				for fam, bt := range map[string]types.BasicKind{"atomic.Uint64": types.Uint64, "atomic.Int64": types.Int64, "atomic.Uint32": types.Uint32, "atomic.Int32": types.Int32} {
+					ms.heaps["atomicval$"+fam] = SArr(SInt, c.scalarSort(types.Typ[bt]))
+				}
+				ms.heaps["atomicval$atomic.Bool"] = SArr(SInt, SBool)
+				inner := Clause{Expr: call.Args[0], Text: m.Text}
+				if names, ok := c.modHeapNames(ct, &inner); ok {
+					for n, s := range names {
+						ms.heaps[n] = s
+					}
+				}
+				continue
+			}
+		}
 		names, ok := c.modHeapNames(ct, &m)
 		if !ok {
 			ms.all = true
@@ -303,12 +321,16 @@ func (c *FnCtx) havoc(st *State, fr *Frame, ms *loopModSet, why string) {
 	if ms.all {
 		c.epochs++
 		st.epoch = c.epochs
-		al, hasAl := st.heap["alloc"]
+		old := st.heap
 		st.heap = map[string]Term{}
-		if hasAl {
-			st.heap["alloc"] = al
+		for k, v := range old {
+			// allocation only grows; ghost state moves only through contracts (callees that
+			// touch ghost state must say so: checked structurally by `attr nocall`)
+			if k == "alloc" || strings.HasPrefix(k, "ghost$") || strings.HasPrefix(k, "atomic$") || k == "held$" {
+				st.heap[k] = v
+			}
 		}
-		// ghost state is not touched by unknown code
+		c.pinned = true
 	} else {
 		var names []string
 		for n := range ms.heaps {
@@ -328,6 +350,14 @@ func (c *FnCtx) havoc(st *State, fr *Frame, ms *loopModSet, why string) {
 			c.heapNames[name] = srt
 			st.heap[name] = c.vc.Fresh("hv$"+strings.ReplaceAll(name, " ", ""), srt)
 		}
+	}
+	if ms.atomics {
+		for name, srt := range c.heapNames {
+			if strings.HasPrefix(name, "atomic$") {
+				st.heap[name] = c.vc.Fresh("hv$"+name, srt)
+			}
+		}
+		c.atomicsHavocked = true
 	}
 	for a := range ms.cells {
 		k := cellKey{frame: fr.id, alloc: a}
